@@ -14,7 +14,7 @@ def mmssff(sectors):
 
 
 def render(lines, rnd, variant):
-    """spelling variants accepted by the format: indentation, quoting, TRACK 1 vs 01, unknown lines, CRLF"""
+    """spelling variants accepted by the format: indentation, quoting, TRACK 1 vs 01, unknown lines, CRLF, FLAGS before / after ISRC"""
     out = []
     isrcs = []
     catalog = ""
@@ -22,7 +22,14 @@ def render(lines, rnd, variant):
     lead0 = (variant // 2) % 2 == 1
     extra = (variant // 4) % 2 == 1
     crlf = (variant // 8) % 2 == 1
+    flags_first = (variant // 16) % 2 == 1
     indent = ["", "  ", "\t", "    "][variant % 4]
+    if flags_first:
+        # the order of a track's ISRC and FLAGS lines is a matter of spelling too
+        lines = list(lines)
+        for i in range(len(lines) - 1):
+            if lines[i]["kind"] == "ISRC" and lines[i + 1]["kind"] == "FLAGS":
+                lines[i], lines[i + 1] = lines[i + 1], lines[i]
     if extra:
         out.append('REM GENRE "Test"')
         out.append('PERFORMER "Somebody"')
@@ -76,7 +83,7 @@ def run(pid):
     items = []
     iid = 0
     for s in sheets:
-        for variant in ([rnd.randint(0, 15)] if t == "quick" else [rnd.randint(0, 15), rnd.randint(0, 15), 0]):
+        for variant in ([rnd.randint(0, 31)] if t == "quick" else [rnd.randint(0, 31), rnd.randint(0, 31), 0]):
             iid += 1
             text, isrcs, catalog = render(s["lines"], rnd, variant)
             items.append({"id": iid, "variant": variant, "text": text, "total": s["expected"]["leadout"] * 588, "expected": s["expected"],
